@@ -348,9 +348,12 @@ def _read_bed_plain(path):
     return rows
 
 
-def _cnvkit(argv, fout):
+def _cnvkit(argv, fout, cap):
     """what `cnvkit.py <argv>` does, in-process; returns the rows of the BED file it wrote to `fout`, after
-    checking that they are the table the command handed to the writer (as bed4)"""
+    checking that they are the table the command handed to the writer (as bed4).  `cap`: a generous bound on
+    the number of bins this input can give at its average size (about twice span/avg); a table beyond it is
+    reported as such instead of being handed to the model's clause checker (a size option that does not reach
+    the function can give 10^5 one-base bins)"""
     import logging
     from cnvlib import commands
     from skgenome import tabio
@@ -374,6 +377,9 @@ def _cnvkit(argv, fout):
         commands.tabio = saved
     if len(captured) != 1 or captured[0][1] != fout or captured[0][2] != "bed4" or not os.path.exists(fout):
         raise AssertionError(f"cnvkit.py {argv[0]} did not write exactly one bed4 table to the requested output")
+    if len(captured[0][0]) > cap:
+        raise AssertionError(f"cnvkit.py {argv[0]} wrote {len(captured[0][0])} bins, more than twice what the "
+                             f"input can give at this average size ({cap})")
     rows = _read_bed_plain(fout)
     if rows != T.rows_of(captured[0][0]):
         raise AssertionError(f"the BED file written by cnvkit.py {argv[0]} is not the table the command computed")
@@ -413,7 +419,11 @@ def _anti_cli(i):
         _opt(argv, o["avg"], i["avg_f"])
         _opt(argv, o["min"], i["min"])
         _opt(argv, o["out"], fo)
-        return _cnvkit(argv, fo)
+        ends = {}
+        for r in i["tg"] + (i["acc"] or []):
+            ends[r[0]] = max(ends.get(r[0], 0), r[2])
+        cap = 50 + 10 * len(i["tg"] + (i["acc"] or [])) + 2 * int(sum(ends.values()) / i["avg_f"])
+        return _cnvkit(argv, fo, cap)
     finally:
         shutil.rmtree(d, ignore_errors=True)
 
@@ -434,9 +444,10 @@ def _target_cli(i):
             argv += ["--annotate", fn]
         if i["short"]:
             argv += ["--short-names"]
-        out = _cnvkit(argv + common + [o["out"], fo], fo)
+        cap = 50 + 2 * len(i["baits"]) + 2 * int(sum(r[2] - r[1] for r in i["baits"]) / i["avg_f"])
+        out = _cnvkit(argv + common + [o["out"], fo], fo, cap)
         # the same bins before relabelling: neither --annotate nor --short-names on the command line
-        plain = _cnvkit(["target", fb] + common + [o["out"], fp], fp)
+        plain = _cnvkit(["target", fb] + common + [o["out"], fp], fp, cap)
         return {"rows": out, "plain": plain}
     finally:
         shutil.rmtree(d, ignore_errors=True)
